@@ -47,4 +47,38 @@ theorem faultAt_unchanged_on_success (cfg : Config) (inuse : List (Bytes × List
   rw [hk] at h1
   exact h1
 
+/-- `fs.Mount` of an rbind of /dev, /sys or /run consists of two kernel calls, and the
+    second (the propagation change) is a fault point of its own: if the first call succeeds
+    and the second is the operation that fails, `fs.Mount` fails — after the first call took
+    effect and without having issued the second.  (The general theorems above then give the
+    failure of the whole command: the fault was reached.) -/
+theorem propagation_failure_reported (w : World) (src tgt fstype opts : Bytes) (kt' : Kernel.KTable)
+    (hs : src = b!"/dev" ∨ src = b!"/sys" ∨ src = b!"/run")
+    (hp : w.pretend = false) (hc : w.crashAt = none) (hf : w.faultAt = some (w.nops + 2))
+    (hk : Kernel.kmount w.kt src tgt fstype (mountFlagsOf fstype) opts = .ok kt') :
+    ((fsMount src tgt fstype opts).run.run w).1 = .error (.err "fault") ∧
+    ((fsMount src tgt fstype opts).run.run w).2.kt = kt' ∧
+    ((fsMount src tgt fstype opts).run.run w).2.trace =
+      w.trace ++ [.mount src tgt fstype (mountFlagsOf fstype) opts] := by
+  have hsrc : (src == b!"/dev" || src == b!"/sys" || src == b!"/run") = true := by
+    rcases hs with h | h | h <;> subst h <;> decide
+  have h := extractBoth (fun w' => w' = w) (fun _ _ => False)
+    (fun e w' => e = .err "fault" ∧ w'.kt = kt' ∧
+      w'.trace = w.trace ++ [.mount src tgt fstype (mountFlagsOf fstype) opts] ∧ w'.fs = w.fs)
+    (fsMount src tgt fstype opts)
+    (fsMount_propagation_fault_triple w src tgt fstype opts kt' hsrc hp hc hf hk) w rfl
+  split at h
+  · exact h.elim
+  · next e he => exact ⟨by rw [he, h.1], h.2.1, h.2.2.1⟩
+
+/-- non-vacuity: a host with / and /dev mounted and an existing target directory; the rbind of
+    /dev succeeds (the table grows) and the propagation point is the one that fails -/
+def wEx : World :=
+  { fs := [(b!"/dev", .dir), (b!"/t", .dir)], kt := { mnts := [⟨1, 0, b!"0:1", [47], [47], b!"ext4", b!"/dev/sda", [], [], []⟩, ⟨2, 1, b!"0:5", [47], b!"/dev", b!"devtmpfs", b!"devtmpfs", [], [], []⟩] }, faultAt := some 2 }
+
+example :
+    ((fsMount b!"/dev" b!"/t" b!"rbind" []).run.run wEx).1 = .error (.err "fault") ∧
+    ((fsMount b!"/dev" b!"/t" b!"rbind" []).run.run wEx).2.kt.mnts.length = 3 :=
+  ⟨rfl, rfl⟩
+
 end Lc.Props.C10
